@@ -537,6 +537,10 @@ pub fn zoo() -> Vec<DefSpec> {
         (vec![step(&[], &[("Own8", f)], 0), step(&[], &[("Pod4", t)], 0), step(&[0], &[("OwnBox", f)], 0), step(&[0, 1], &[], 0)], f),
         // single empty variant
         (vec![step(&[], &[], 0)], f),
+        // a zero-size datum is the most aligned datum of the record
+        (vec![step(&[], &[("Own3", f), ("OwnZ4", f)], 0), step(&[0], &[("Pod1", t)], 0)], f),
+        (vec![step(&[], &[("Pod1", t), ("Own1", f)], 0), step(&[], &[("OwnZ4", f)], 0), step(&[0], &[("Pod3", f)], 0)], f),
+        (vec![step(&[], &[("Pod4", t), ("Pod4", t), ("Pod4", t)], 0), step(&[1], &[("PodZ", f), ("Own3", f)], 0)], f),
     ];
     // ghost data (added and removed before the close)
     let mut g1 = vec![step(&[], &[("Own8", f)], 0), step(&[], &[("Pod4", t)], 0)];
